@@ -9,7 +9,7 @@ CONSTANTS
   Labels = {"a"}
   Flds = {"f1"}
   Corrects = {"F"}
-  Valences = {"neg", "pos"}
+  Valences = {"neg", "pos", "zero"}
   Scores = {"none", "+10", "-5", "50%", "0.25"}
   Unscoreds = {FALSE, TRUE}
   Msgs = {"text"}
